@@ -10,8 +10,8 @@ Four grammars, one per layer of `parseOp`:
 * `N inBr al`   — what the redundant-bracket pass returns below `Args` (no `Brackets` inside `Brackets`; an `Ellipsis`
   may now stand over a `List`).
 * `NRoot`       — `Op` of one or two non-empty `Args` of `N false true` trees: the normal form of `parseOp`'s results.
-* `Excluded`    — the decidable predicate naming the patterns of an `NRoot` tree whose printed text is not (faithfully)
-  in the notation, plus the restrictions of `print_parse_partial` that are still open.
+* `Excluded`    — the decidable predicate naming the three patterns of an `NRoot` tree whose printed text is not (faithfully)
+  in the notation.
 -/
 namespace Einx.Notation
 
@@ -110,26 +110,11 @@ def anyNodeL (p : Expr → Bool) : List Expr → Bool
   | c :: cs => anyNode p c || anyNodeL p cs
 end
 
-mutual
-/-- A numeric axis stands inside brackets. -/
-def numInBr (inBr : Bool) : Expr → Bool
-  | .axis _ v _ _ => inBr && v.isSome
-  | .flat i _ _ => numInBr inBr i
-  | .brackets i _ _ => numInBr true i
-  | .ellipsis i _ _ _ => numInBr inBr i
-  | .concat cs _ _ | .list cs _ _ | .args cs _ _ | .op cs _ _ => numInBrL inBr cs
-def numInBrL (inBr : Bool) : List Expr → Bool
-  | [] => false
-  | c :: cs => numInBr inBr c || numInBrL inBr cs
-end
-
 /-- The three patterns whose printed form is not (faithfully) in the notation. -/
 def hasBadPattern (t : Expr) : Bool :=
   anyNode patEllList t || anyNode patEllEll t || anyNode patFlatConcat t
 
-/-- `Excluded t`: `t` contains one of the three refuted patterns, or falls under one of the two open restrictions of
-    `print_parse_partial` (numeric axis inside brackets; two adjacent spaces in the printed text). -/
-def Excluded (t : Expr) : Bool :=
-  hasBadPattern t || numInBr false t || hasAdjSpaces (textsL t.ptree)
+/-- `Excluded t`: `t` contains one of the three refuted patterns (nothing else is excluded). -/
+def Excluded (t : Expr) : Bool := hasBadPattern t
 
 end Einx.Notation
